@@ -55,7 +55,9 @@ def cfg(compiler, opt, std='c++17', abacus=False, **kw):
 # the clang configuration mirrors a release build of a project that uses the compiler defaults: GNU dialect (no __STRICT_ANSI__),
 # -DNDEBUG, and -funsigned-char (the default on ARM/PowerPC Linux): code hidden behind those switches is a configuration dimension too
 FORCE_CE = ['-include', os.path.join(HARNESS, 'force_ce.h')]   # harness/force_ce.h: is_constant_evaluated() answers true at run time
-QUICK_CFGS = [cfg('g++', '-O0', 'gnu++17', extra=['-DVERIF_UMBRELLA=1'], tag='gcc-O0-gnu++17-umbrella'), cfg('g++', '-O2'), cfg('clang++', '-O2', 'gnu++17', extra=['-DNDEBUG', '-funsigned-char'], tag='clang-O2-gnu++17-ndebug-uchar'),
+# gcc-O0: umbrella header, GNU dialect, -ftrapv (signed overflow aborts in this uninstrumented build for every monitor's inputs),
+# _GLIBCXX_ASSERTIONS (std::array bounds)
+QUICK_CFGS = [cfg('g++', '-O0', 'gnu++17', extra=['-DVERIF_UMBRELLA=1', '-ftrapv', '-D_GLIBCXX_ASSERTIONS'], tag='gcc-O0-gnu++17-umbrella-trapv'), cfg('g++', '-O2'), cfg('clang++', '-O2', 'gnu++17', extra=['-DNDEBUG', '-funsigned-char'], tag='clang-O2-gnu++17-ndebug-uchar'),
               cfg('g++', '-O2', 'c++20', extra=FORCE_CE, tag='gcc-O2-c++20-ce')]
 # the abacus configuration is also the GNU-dialect, -march=native (LZCNT/BMI/AVX2 builtins selected by feature macros) one
 ABACUS_QUICK = [cfg('g++', '-O2', 'gnu++17', abacus=True, extra=['-march=native'], tag='gcc-O2-gnu++17-abacus-native')]
